@@ -34,16 +34,21 @@ for k, l in [(1, 2), (2, 1), (2, 2)]:
                 desc="TreeRef::write_to Ok iff no NUL in names; bytes == size(); entry layout '<octal mode> SP name NUL id'",
                 inputs="%d entries, names %d bytes (all values), modes all u16, sorted by the real Ord" % (k, l), bound="unwind 24"))
 
+for k, l, tier in [(1, 1, "quick"), (1, 3, "thorough"), (2, 1, "thorough"), (2, 2, "thorough")]:
+    hs.append(H("c01::tree_roundtrip::c01_tree_roundtrip_k%d_l%d" % (k, l), tier=tier, timeout=1200, mem=10, covers=2, extra_args=STUB, thorough_timeout=2400,
+                desc="TreeRef::write_to -> TreeRefIter (fast_entry decoder): every entry comes back with the same mode, name and id, and nothing is left over",
+                inputs="%d entries, names %d bytes (all values but NUL), every mode the decoder accepts (040000 or bit 15 set), id all 20 bytes" % (k, l), bound="unwind 24"))
+
 SPEC = {
     "id": "C01",
     "crate": "h-object",
     "harnesses": hs,
-    "functions": ["gix_date::Time::{write_to,size}", "gix_actor::SignatureRef::{write_to,size}", "<CommitRef|Commit|TagRef|Tag|TreeRef as WriteTo>::{write_to,size}",
+    "functions": ["gix_date::Time::{write_to,size}", "gix_actor::SignatureRef::{write_to,size}", "<CommitRef|Commit|TagRef|Tag|TreeRef as WriteTo>::{write_to,size}", "TreeRefIter::next / tree::ref_iter::decode::fast_entry / mode_from_decimal (round trip of written trees)",
                   "gix_object::encode::{header_field,header_field_multi_line,trusted_header_*}", "tree::EntryMode::as_bytes"],
     "bounds": "times: full i64 x all writable offsets; names/emails <= 3 bytes; commit/tag shapes as listed per harness; trees <= 2 entries with names <= 2 bytes and all 65536 modes",
     "stubs": ["composite commit/tag harnesses only: alloc::fmt::format -> empty String; gix_hash::oid::write_hex_to -> writes 40 fixed hex digits; gix_hash::ObjectId::from_hex -> null id (hex coding is C05's subject; only byte counts matter here)"],
     "outside": ["encode::loose_header (itoa into a SmallVec: every query with a symbolic size ran out of memory, > 40 GB; measured) - decode::loose_header is covered under C06", "SHA-1 of the written bytes (object id equality with git reduces to byte/size exactness here)",
-                "decode round-trip of whole objects (winnow grammar; measured out of reach, DESIGN §4)",
+                "decode round-trip of commits and tags (winnow grammar; measured out of reach, DESIGN §4) - trees do round-trip through the hand-written entry decoder",
                 "longer names/messages/headers than the stated shapes", "loose-object file writing (gix-odb)"],
     "assumptions": ["tree entries are pre-sorted by the crate's own Ord (C03 checks that order against git's)"],
     "manifest": {
